@@ -6,4 +6,13 @@ SPECS = [
     dict(name='J2Flow', file='optimism/material/J2Plastic.py', deps=['TensorMath'],
          consts=['_TOLERANCE'],
          funcs=[('compute_flow_direction', ['M33'])]),
+    # round 4: the tail of compute_state_new_finite_deformations AFTER `stateInc = compute_state_increment(...)`:
+    #   eqpsNew = stateOld[EQPS] + stateInc[EQPS];  FpNew = TensorMath.exp_symm(stateInc[PLASTIC_DISTORTION]) @ FpOld
+    # (stateOld / stateInc are free variables, TensorMath.exp_symm an opaque function parameter).  The ORDER of the product
+    # exp_symm(dEp) @ FpOld is what the coaxial commit-invariance proof of proofs/L_C09F.v depends on.
+    dict(name='J2Finite', file='optimism/material/J2Plastic.py', deps=['TensorMath'],
+         funcs=[('compute_state_new_finite_deformations', ['M33', 'V10', 'S', 'V5', 'S'],
+                 dict(coq_name='j2_state_new_finite_tail', free=[('stateOld', 'V10'), ('stateInc', 'V10')],
+                      opaque=[('TensorMath.exp_symm', 'exp_symm', ['M33'], 'M33')],
+                      segment=dict(after='stateInc', upto='FpNew', drop_params=True, returns=['eqpsNew', 'FpNew'])))]),
 ]
